@@ -65,6 +65,24 @@ func c03Files(root string) []string {
 	return r
 }
 
+// files outside <root>/keys that hold a PEM private key (relative names, hex)
+func c03KeyFilesOutside(root string) string {
+	var l []string
+	for _, f := range c03Files(root) {
+		if strings.HasPrefix(f, "keys/") {
+			continue
+		}
+		if b, err := os.ReadFile(filepath.Join(root, f)); err == nil && strings.Contains(string(b), "PRIVATE KEY") {
+			l = append(l, filepath.Dir(f)+"/PEM")
+		}
+	}
+	sort.Strings(l)
+	if len(l) > 3 {
+		l = l[:3]
+	}
+	return strings.Join(l, ",")
+}
+
 func c03Exec(env *c03Env, op map[string]interface{}) (line string) {
 	defer func() {
 		if r := recover(); r != nil {
@@ -136,6 +154,26 @@ func c03Exec(env *c03Env, op map[string]interface{}) (line string) {
 			}
 		}
 		res := "save ok file=" + strings.Join(created, ",")
+		// fault 1: the name is taken now — a second save must fail and leave NO file anywhere (key dir, temp dir, sandbox)
+		mid := c03Files(env.root)
+		if err2 := be.SavePrivateKey(context.Background(), kid, env.key); err2 == nil {
+			res += " SECOND-SAVE-OVERWROTE-THE-KEY"
+		} else if now := c03Files(env.root); len(now) != len(mid) {
+			res += " FAILED-SAVE-LEFT-KEY-MATERIAL-OUTSIDE-KEY-DIR:" + c03KeyFilesOutside(env.root)
+		}
+		// fault 2: the key directory is gone — the save must fail and leave no file
+		if gone, gerr := NewFileSystemBackend(filepath.Join(env.root, "gone", "keys")); gerr == nil {
+			_ = os.RemoveAll(filepath.Join(env.root, "gone"))
+			mid2 := c03Files(env.root)
+			if err3 := spi.NewValidatedKIDBackendWrapper(gone, spi.KidPattern).SavePrivateKey(context.Background(), kid, env.key); err3 == nil {
+				_ = os.RemoveAll(filepath.Join(env.root, "gone"))
+			} else if now := c03Files(env.root); len(now) != len(mid2) {
+				res += " FAILED-SAVE-LEFT-KEY-MATERIAL-OUTSIDE-KEY-DIR:" + c03KeyFilesOutside(env.root)
+			}
+		}
+		for _, f := range c03Files(filepath.Join(env.root, "tmpdir")) {
+			_ = os.Remove(filepath.Join(env.root, "tmpdir", f))
+		}
 		// the same name must find it and delete it again
 		if ok, err := be.PrivateKeyExists(context.Background(), kid, "1"); !ok || err != nil {
 			res += " NOT-FOUND-AGAIN"
@@ -252,6 +290,11 @@ func TestVerifC03(t *testing.T) {
 		t.Fatal(err)
 	}
 	defer os.RemoveAll(root)
+	// the system temp dir is part of the watched sandbox: a key file the backend writes "temporarily" shows up in c03Files
+	if err := os.MkdirAll(filepath.Join(root, "tmpdir"), 0o700); err != nil {
+		t.Fatal(err)
+	}
+	t.Setenv("TMPDIR", filepath.Join(root, "tmpdir"))
 	env := &c03Env{root: root, validate: spi.NewValidatedKIDBackendWrapper(c03Stub{}, spi.KidPattern)}
 	for _, sp := range []string{root + "/keys", root + "/x/../keys/", root + "//keys/."} {
 		be, err := NewFileSystemBackend(sp)
